@@ -45,7 +45,11 @@ def carrier(vals, miss, marker, poison=None):
     if marker == "none":
         return [None if m else v for v, m in zip(vals, miss)]
     data = np.array([(np.nan if marker == "masked-nan" else poison) if m else v for v, m in zip(vals, miss)], dtype=float)
-    return np.ma.MaskedArray(data, mask=np.array(miss, dtype=bool) if len(miss) else False)
+    ma = np.ma.MaskedArray(data, mask=np.array(miss, dtype=bool) if len(miss) else False)
+    present = [v for v, m in zip(vals, miss) if not m]
+    if present and (len(vals) + sum(miss)) % 2:
+        ma.fill_value = present[(len(vals) + sum(miss)) % len(present)]  # the fill value is also a real observation
+    return ma
 
 
 def T(n, step=60):
